@@ -5,10 +5,12 @@
  *   crash  the process _exit(137)s immediately BEFORE its k-th armed operation (buffered stdio data is lost,
  *          flushed data survives: process death, not power loss)
  *   fault  the k-th armed operation fails with errno (ENOSPC for fflush/ftruncate, EACCES/EIO otherwise)
+ *   gate   BEFORE every armed operation the process writes "n op path x" to the descriptor FSSHIM_GATE_OUT and waits
+ *          for one byte on FSSHIM_GATE_IN: a coordinator decides which process makes the next file operation (C15)
  *
  * Counting only happens while armed: the driver calls fsshim_arm(mode, k) right before the library call under
  * test and fsshim_disarm() after it (exported symbols, reached through ctypes).  mode: 0 = log only, 1 = crash,
- * 2 = fault.  fsshim_count() returns the number of armed operations seen so far.
+ * 2 = fault, 3 = gate.  fsshim_count() returns the number of armed operations seen so far.
  */
 #define _GNU_SOURCE
 #include <dlfcn.h>
@@ -24,7 +26,7 @@
 
 static int armed = 0, mode = 0, target = 0, count = 0, hit = 0;
 static const char *root = NULL;
-static int logfd = -1;
+static int logfd = -1, gatein = -1, gateout = -1;
 
 static void init(void)
 {
@@ -37,6 +39,8 @@ static void init(void)
 		int (*ropen)(const char *, int, ...) = dlsym(RTLD_NEXT, "open");
 		logfd = ropen(lf, O_WRONLY | O_APPEND | O_CREAT, 0600);
 	}
+	if (getenv("FSSHIM_GATE_IN")) gatein = atoi(getenv("FSSHIM_GATE_IN"));
+	if (getenv("FSSHIM_GATE_OUT")) gateout = atoi(getenv("FSSHIM_GATE_OUT"));
 }
 
 static int below(const char *p)
@@ -68,6 +72,14 @@ static int gate(const char *op, const char *path, const char *extra)
 			if (write(logfd, b, k)) {}
 		}
 		_exit(137);
+	}
+	if (mode == 3 && gatein >= 0 && gateout >= 0) {
+		char b[700], c;
+		int k = snprintf(b, sizeof b, "%d %s %s %s\n", count, op, path + strlen(root), (extra && *extra) ? extra : "-");
+		if (write(gateout, b, k) != k) _exit(138);
+		ssize_t r;
+		do { r = read(gatein, &c, 1); } while (r < 0 && errno == EINTR);
+		if (r != 1) _exit(139);
 	}
 	int fail = (mode == 2 && count == target);
 	if (fail) hit = 1;
